@@ -312,7 +312,7 @@ def run_shard(spec):
             continue
         case = gen(core.rng(PID, spec["seed"], spec["shard"], i), spec)
         problems, run = execute(case, result)
-        result.case({"kind": spec["kind"], "payloads": len(case["generations"][0]["payloads"]), "services": len(case["generations"][0]["services"])},
+        result.case(common.sample(case, run, **{"kind": spec["kind"], "payloads": len(case["generations"][0]["payloads"]), "services": len(case["generations"][0]["services"])}),
                     nontrivial=len(run.of("start")) >= 3, key=common.shape(case))
         for what, mech in problems:
             clean = {k: v for k, v in spec.items() if k != "only_case"}
